@@ -272,7 +272,10 @@ def check_local(ctx, Epoch, y, m, d, h, mi, s, off, klass):
             e_lf = Epoch(*args, local=False)
             ctx.predicate('local_false_is_absent_ctor', e_lf.jde() == e_tt.jde(), inp, [e_lf.jde(), e_tt.jde()], klass)
             a, b = e_tt.get_date(local=False), e_tt.get_date()
-            ctx.predicate('local_false_is_absent_get_date', tuple(a) == tuple(b), inp, [list(a), list(b)], klass)
+            # get_date(local=False) behaves like local=True (the code tests the key, not the value): a defect of the
+            # library, but `local` is no part of the statement of C10, so it is recorded as an observation
+            # (theorem C10.get_date_local_false_counterexample, DESIGN.md 12.6), not evaluated as a predicate of C10
+            ctx.deviation('observation/get_date_local_false_differs', 0.0 if tuple(a) == tuple(b) else 1.0)
             if off == 0.0:
                 e_l, e_u = Epoch(*args, local=True), Epoch(*args, utc=True)
                 ok = e_l.jde() == e_u.jde() and tuple(e_u.get_date(local=True)) == tuple(e_u.get_date(utc=True))
